@@ -27,8 +27,12 @@ import (
 	mrand "math/rand"
 	"net"
 	"net/http"
+	"go/scanner"
+	"go/token"
 	"os"
+	"path/filepath"
 	"sort"
+	"strconv"
 	"strings"
 	"sync"
 	"syscall"
@@ -79,7 +83,7 @@ type zzvS5In struct {
 
 // ---- users ------------------------------------------------------------------------------------------------------
 
-type zzvUser struct{ name, pw, mode string } // mode: none | plain | hashed
+type zzvUser struct{ name, pw, mode, hash string } // mode: none | plain | hashed
 
 type zzvUsers struct {
 	list     []zzvUser
@@ -119,28 +123,33 @@ func zzvUsersFor(class string, rng *mrand.Rand) zzvUsers {
 	switch class {
 	case "none":
 	case "unusable":
-		u.list = []zzvUser{{b, "", "none"}}
+		u.list = []zzvUser{{name: b, pw: "", mode: "none"}}
 		u.unusable = b
 	case "plain":
 		p := pw(a)
-		u.list = []zzvUser{{a, p, "plain"}}
+		u.list = []zzvUser{{name: a, pw: p, mode: "plain"}}
 		u.valid = [2]string{a, p}
 	case "hashed":
 		p := pw(a)
-		u.list = []zzvUser{{a, p, "hashed"}}
+		u.list = []zzvUser{{name: a, pw: p, mode: "hashed"}}
 		u.valid = [2]string{a, p}
 	case "mixed":
 		p := pw(a)
-		u.list = []zzvUser{{a, p, "plain"}, {b, "", "none"}}
+		u.list = []zzvUser{{name: a, pw: p, mode: "plain"}, {name: b, pw: "", mode: "none"}}
 		u.valid = [2]string{a, p}
 		u.unusable = b
 	case "both":
 		p, q := pw(a), pw(c)
-		u.list = []zzvUser{{a, p, "hashed"}, {c, q, "plain"}}
+		u.list = []zzvUser{{name: a, pw: p, mode: "hashed"}, {name: c, pw: q, mode: "plain"}}
 		u.valid = [2]string{a, p}
 		u.shadowed = [2]string{c, q}
 	default:
 		panic("unknown user class " + class)
+	}
+	for i := range u.list {
+		if u.list[i].mode == "hashed" {
+			u.list[i].hash = zzvHash(u.list[i].pw)
+		}
 	}
 	if rng != nil {
 		rng.Shuffle(len(u.list), func(i, j int) { u.list[i], u.list[j] = u.list[j], u.list[i] })
@@ -170,7 +179,7 @@ func zzvAgentFor(c zzvS5Cfg, u zzvUsers) *Agent {
 		case "plain":
 			uc.Password = x.pw
 		case "hashed":
-			uc.PasswordHash = zzvHash(x.pw)
+			uc.PasswordHash = x.hash
 		}
 		cfg.SOCKS5.Auth.Users = append(cfg.SOCKS5.Auth.Users, uc)
 	}
@@ -501,6 +510,7 @@ func (c *zzvS5Client) awaitClosed(d time.Duration) (rep []string, closed bool) {
 type zzvEnc struct {
 	users zzvUsers
 	rng   *mrand.Rand // nil: canonical bytes
+	magic [2]string   // materialisation of the credential kind "magic" (name, password)
 }
 
 func (e zzvEnc) rstr(n int) string {
@@ -534,6 +544,24 @@ func (e zzvEnc) creds(kind string) (string, string) {
 			return n, "no-" + e.rstr(1+e.rng.Intn(12))
 		}
 		return n, "wrong-password"
+	case "shiftl", "shiftr":
+		// the bytes of the valid name and password with the boundary moved by one
+		n, p := "alice", "pw-alice-S3cret"
+		if u.valid[0] != "" {
+			n, p = u.valid[0], u.valid[1]
+		}
+		if kind == "shiftl" && len(n) > 1 {
+			return n[:len(n)-1], n[len(n)-1:] + p
+		}
+		if len(p) > 1 {
+			return n + p[:1], p[1:]
+		}
+		return n + "x", p
+	case "magic":
+		if e.magic[0] != "" || e.magic[1] != "" {
+			return e.magic[0], e.magic[1]
+		}
+		return "mallory", "dummy"
 	case "unknown":
 		if e.rng != nil {
 			return "m-" + e.rstr(1+e.rng.Intn(10)), e.rstr(1 + e.rng.Intn(10))
@@ -578,7 +606,7 @@ func (e zzvEnc) encode(tok zzvS5Tok) (b []byte, complete bool, name, pw string) 
 	case "A":
 		name, pw = e.creds(tok.K)
 		switch tok.K {
-		case "valid", "shadowed", "wrongpw", "unknown", "emptypw":
+		case "valid", "shadowed", "wrongpw", "unknown", "emptypw", "shiftl", "shiftr", "magic":
 			return zzvCredBytes(1, name, pw), true, name, pw
 		case "nouser":
 			return []byte{1, 0, 3, 'a', 'b', 'c'}, true, "", ""
@@ -632,6 +660,8 @@ func (e zzvEnc) encode(tok zzvS5Tok) (b []byte, complete bool, name, pw string) 
 				d = e.rstr(1+e.rng.Intn(40)) + ".test"
 			}
 			addr = append([]byte{3, byte(len(d))}, d...)
+		case "ip4str":
+			addr = []byte{1, 203, 0, 113, 9}
 		case "zero4":
 			addr = []byte{1, 0, 0, 0, 0}
 		case "zero6":
@@ -875,7 +905,135 @@ func zzvIsPrefix(a, b []string) bool { // a is a prefix of b
 	return true
 }
 
-// TestZZVSocks5AuthReplay runs every TLC-enumerated program against the real handler.
+// zzvProgResult is what running one program (possibly several connections on one server) showed.
+type zzvProgResult struct {
+	bad       int // index of the first step that differs from the spec (-1: none)
+	why       string
+	trace     []map[string]any
+	violation bool // some connection executed a command without matching credentials while auth is on
+	executed  []string
+	sentMatch bool
+	steps     int
+	err       error
+}
+
+// zzvRunProgram runs the steps of one program against srv; the token NC opens the next connection to the same server.
+func zzvRunProgram(srv *zzvS5Server, p zzvS5Prog, enc zzvEnc, exact bool) zzvProgResult {
+	res := zzvProgResult{bad: -1}
+	run := srv.newRun(enc)
+	var connEx []string
+	endConn := func() {
+		run.finish()
+		connEx = append(connEx, srv.rec.drain()...)
+		if p.Cfg.Auth && len(connEx) > 0 && !run.sentMatch {
+			res.violation = true
+		}
+		res.sentMatch = res.sentMatch || run.sentMatch
+		res.executed = append(res.executed, connEx...)
+		connEx = nil
+	}
+	closed := false
+	for si, st := range p.Steps {
+		if st.Tok.T == "NC" {
+			endConn()
+			run = srv.newRun(enc)
+			closed = false
+			res.trace = append(res.trace, map[string]any{"tok": st.Tok, "rep": []string{}, "ex": []string{}, "closed": false})
+			res.steps++
+			continue
+		}
+		if closed {
+			break
+		}
+		obs, err := run.step(st.Tok)
+		if err != nil {
+			res.err = fmt.Errorf("program %d step %d: %v", p.ID, si, err)
+			break
+		}
+		connEx = append(connEx, obs.Ex...)
+		res.trace = append(res.trace, map[string]any{"tok": st.Tok, "spec_rep": st.Rep, "spec_ex": st.Ex,
+			"spec_phase": st.Phase, "rep": obs.Rep, "ex": obs.Ex, "closed": obs.Closed})
+		res.steps++
+		specClosed := st.Phase == "closed"
+		okRep := zzvSameRep(obs.Rep, st.Rep)
+		okClosed := obs.Closed == specClosed
+		if !exact {
+			// TCP / WebSocket: a reply may be lost when the server closes with unread input (RST), and a
+			// close may be seen late: only contradictions count
+			okRep = zzvIsPrefix(obs.Rep, st.Rep)
+			okClosed = !obs.Closed || specClosed || st.Phase == "relay" || st.Phase == "stuck"
+		}
+		if res.bad < 0 && (!okRep || !okClosed || zzvExNames(obs.Ex) != st.Ex) {
+			res.bad, res.why = si, fmt.Sprintf("rep %v/%v closed %v/%v ex %q/%q", obs.Rep, st.Rep, obs.Closed, specClosed,
+				zzvExNames(obs.Ex), st.Ex)
+			// keep going only if a later connection of the program can still be run
+			hasNC := false
+			for _, later := range p.Steps[si+1:] {
+				if later.Tok.T == "NC" {
+					hasNC = true
+				}
+			}
+			if !hasNC {
+				break
+			}
+		}
+		closed = obs.Closed
+	}
+	endConn()
+	return res
+}
+
+// zzvSourceLiterals returns the distinct string literals of the given Go source files (credential dictionary).
+func zzvSourceLiterals(globs ...string) []string {
+	seen := map[string]bool{}
+	var out []string
+	for _, g := range globs {
+		files, _ := filepath.Glob(g)
+		sort.Strings(files)
+		for _, fn := range files {
+			if strings.HasSuffix(fn, "_test.go") {
+				continue
+			}
+			src, err := os.ReadFile(fn)
+			if err != nil {
+				continue
+			}
+			var sc scanner.Scanner
+			fset := token.NewFileSet()
+			sc.Init(fset.AddFile(fn, fset.Base(), len(src)), src, nil, 0)
+			for {
+				_, tok, lit := sc.Scan()
+				if tok == token.EOF {
+					break
+				}
+				if tok != token.STRING {
+					continue
+				}
+				v, err := strconv.Unquote(lit)
+				if err != nil || v == "" || len(v) > 255 || seen[v] {
+					continue
+				}
+				seen[v] = true
+				out = append(out, v)
+			}
+		}
+	}
+	return out
+}
+
+func zzvHasMagic(p zzvS5Prog) bool {
+	for _, st := range p.Steps {
+		if st.Tok.T == "A" && st.Tok.K == "magic" {
+			return true
+		}
+	}
+	return false
+}
+
+// TestZZVSocks5AuthReplay runs every TLC-enumerated program against the real handler (pipe: a fresh server per program,
+// so that nothing a server remembers leaks from one program into the next).  With ZZV_DICT set, every program that
+// contains the credential kind "magic" is additionally run once per string literal of the implementation's source, the
+// literal being used as password of an unknown user, as password of the configured user, and as name and password.
 func TestZZVSocks5AuthReplay(t *testing.T) {
 	var in zzvS5In
 	zzvLoad(t, "ZZV_IN", &in)
@@ -890,10 +1048,21 @@ func TestZZVSocks5AuthReplay(t *testing.T) {
 	}
 	sort.Strings(keys)
 	exact := in.Variant == "pipe"
+	dict := os.Getenv("ZZV_DICT")
+	var literals []string
+	if dict != "" {
+		literals = zzvSourceLiterals("../socks5/*.go")
+		if dict == "all" {
+			literals = append(literals, zzvSourceLiterals("*.go", "../config/*.go")...)
+		}
+		if len(literals) < 20 {
+			t.Fatalf("credential dictionary: only %d string literals found in the source", len(literals))
+		}
+	}
 	var wg sync.WaitGroup
 	sem := make(chan struct{}, 8)
 	var mu sync.Mutex
-	steps, executed, mism, viol, attacks := 0, map[string]int{}, 0, 0, 0
+	steps, executed, mism, viol, attacks, dictRuns := 0, map[string]int{}, 0, 0, 0, 0
 	var infra []string
 	for _, k := range keys {
 		progs := byCfg[k]
@@ -903,83 +1072,103 @@ func TestZZVSocks5AuthReplay(t *testing.T) {
 			defer wg.Done()
 			defer func() { <-sem }()
 			users := zzvUsersFor(progs[0].Cfg.Users, nil)
-			srv, err := zzvNewS5Server(in.Variant, progs[0].Cfg, users)
-			if err != nil {
-				mu.Lock()
-				infra = append(infra, "server: "+err.Error())
-				mu.Unlock()
-				return
-			}
-			defer srv.stop()
-			for _, p := range progs {
-				run := srv.newRun(zzvEnc{users: users})
-				var trace []map[string]any
-				var allEx []string
-				bad := -1
-				why := ""
-				for si, st := range p.Steps {
-					obs, err := run.step(st.Tok)
-					if err != nil {
-						mu.Lock()
-						infra = append(infra, fmt.Sprintf("program %d step %d: %v", p.ID, si, err))
-						mu.Unlock()
-						bad = -2
-						break
-					}
-					allEx = append(allEx, obs.Ex...)
-					trace = append(trace, map[string]any{"tok": st.Tok, "spec_rep": st.Rep, "spec_ex": st.Ex,
-						"spec_phase": st.Phase, "rep": obs.Rep, "ex": obs.Ex, "closed": obs.Closed})
-					mu.Lock()
-					steps++
-					mu.Unlock()
-					specClosed := st.Phase == "closed"
-					okRep := zzvSameRep(obs.Rep, st.Rep)
-					okClosed := obs.Closed == specClosed
-					if !exact {
-						// TCP / WebSocket: a reply may be lost when the server closes with unread input (RST), and a
-						// close may be seen late: only contradictions count
-						okRep = zzvIsPrefix(obs.Rep, st.Rep)
-						okClosed = !obs.Closed || specClosed || st.Phase == "relay" || st.Phase == "stuck"
-					}
-					if !okRep || !okClosed || zzvExNames(obs.Ex) != st.Ex {
-						bad, why = si, fmt.Sprintf("rep %v/%v closed %v/%v ex %q/%q", obs.Rep, st.Rep, obs.Closed, specClosed,
-							zzvExNames(obs.Ex), st.Ex)
-						break
-					}
-					if obs.Closed {
-						break
-					}
+			var shared *zzvS5Server
+			server := func() (*zzvS5Server, func(), error) {
+				if exact {
+					s, err := zzvNewS5Server(in.Variant, progs[0].Cfg, users)
+					return s, func() {}, err
 				}
-				run.finish()
-				allEx = append(allEx, srv.rec.drain()...)
+				if shared == nil {
+					s, err := zzvNewS5Server(in.Variant, progs[0].Cfg, users)
+					if err != nil {
+						return nil, nil, err
+					}
+					shared = s
+				}
+				return shared, func() {}, nil
+			}
+			defer func() {
+				if shared != nil {
+					shared.stop()
+				}
+			}()
+			report := func(p zzvS5Prog, res zzvProgResult, srv *zzvS5Server, magic string) {
 				mu.Lock()
-				for _, e := range allEx {
+				steps += res.steps
+				for _, e := range res.executed {
 					executed[strings.SplitN(e, ":", 2)[0]]++
 				}
-				mu.Unlock()
-				// the property itself, from ground truth: executed without matching credentials while auth is on
-				violation := p.Cfg.Auth && len(allEx) > 0 && !run.sentMatch
 				if p.Attack != "" {
-					mu.Lock()
 					attacks++
-					mu.Unlock()
 				}
-				if (bad >= 0 && p.Attack == "") || violation {
+				mu.Unlock()
+				if res.err != nil {
+					mu.Lock()
+					infra = append(infra, res.err.Error())
+					mu.Unlock()
+					return
+				}
+				if (res.bad >= 0 && p.Attack == "") || res.violation {
 					mu.Lock()
 					mism++
-					if violation {
+					if res.violation {
 						viol++
 					}
 					mu.Unlock()
-					zzvEmit("mismatch", map[string]any{"id": p.ID, "cfg": p.Cfg, "attack": p.Attack, "variant": in.Variant, "step": bad, "why": why,
-						"violation": violation, "executed": allEx, "sent_matching_credentials": run.sentMatch, "trace": trace})
+					zzvEmit("mismatch", map[string]any{"id": p.ID, "cfg": p.Cfg, "attack": p.Attack, "variant": in.Variant,
+						"step": res.bad, "why": res.why, "violation": res.violation, "executed": res.executed,
+						"sent_matching_credentials": res.sentMatch, "trace": res.trace, "magic": magic})
+				}
+				srv.mu.Lock()
+				for _, pn := range srv.panics {
+					zzvEmit("panic", map[string]any{"cfg": srv.cfg, "panic": pn})
+				}
+				srv.panics = nil
+				srv.mu.Unlock()
+			}
+			for _, p := range progs {
+				srv, done, err := server()
+				if err != nil {
+					mu.Lock()
+					infra = append(infra, "server: "+err.Error())
+					mu.Unlock()
+					return
+				}
+				report(p, zzvRunProgram(srv, p, zzvEnc{users: users}, exact), srv, "")
+				done()
+				// (the scenarios of the deviation "a source constant works as credential" are the programs that go on
+				// to send a request after the magic credentials: run them with every literal as well)
+				if dict == "" || !exact || !zzvHasMagic(p) || (p.Attack != "" && p.Attack != "DevUnknownUserDummyPassword") {
+					continue
+				}
+				// the dummy comparison of the hashed store costs a full-strength bcrypt per unknown user
+				slow := p.Cfg.Users == "hashed" || p.Cfg.Users == "both"
+				known := users.valid[0]
+				if known == "" {
+					known = "alice"
+				}
+				for li, l := range literals {
+					if slow && dict != "all" && li%10 != 0 {
+						continue
+					}
+					forms := [][2]string{{"mallory", l}, {known, l}, {l, l}}
+					if slow {
+						forms = forms[:2]
+					}
+					for _, f := range forms {
+						srv, done, err := server()
+						if err != nil {
+							return
+						}
+						res := zzvRunProgram(srv, p, zzvEnc{users: users, magic: f}, exact)
+						mu.Lock()
+						dictRuns++
+						mu.Unlock()
+						report(p, res, srv, f[0]+" / "+f[1])
+						done()
+					}
 				}
 			}
-			srv.mu.Lock()
-			for _, p := range srv.panics {
-				zzvEmit("panic", map[string]any{"cfg": srv.cfg, "panic": p})
-			}
-			srv.mu.Unlock()
 		}(progs)
 	}
 	wg.Wait()
@@ -988,7 +1177,7 @@ func TestZZVSocks5AuthReplay(t *testing.T) {
 	}
 	zzvEmit("summary", map[string]any{"variant": in.Variant, "programs": len(in.Programs), "configs": len(keys),
 		"steps": steps, "executed": executed, "mismatches": mism, "violations": viol, "infra": len(infra),
-		"attack_programs": attacks})
+		"attack_programs": attacks, "dictionary_literals": len(literals), "dictionary_runs": dictRuns})
 }
 
 // ---- code -> spec: random programs ----------------------------------------------------------------------------------------------
@@ -1022,7 +1211,7 @@ func zzvRandTok(rng *mrand.Rand, phase string) zzvS5Tok {
 			return zzvS5Tok{T: "R", Cmd: "connect", Addr: "ip4", K: "full"}
 		}
 		return zzvS5Tok{T: "A", K: pick("valid", "valid", "valid", "shadowed", "wrongpw", "unknown", "emptypw", "nouser",
-			"badver", "trunc1", "truncu", "truncp")}
+			"badver", "trunc1", "truncu", "truncp", "shiftl", "shiftr", "shiftl", "magic")}
 	default:
 		if rng.Intn(15) == 0 {
 			return zzvS5Tok{T: "A", K: pick("valid", "wrongpw")}
@@ -1084,12 +1273,14 @@ func TestZZVSocks5AuthTrace(t *testing.T) {
 		// several connections against the same handler
 		for conn := 0; conn < 3; conn++ {
 			if conn > 0 {
-				put(map[string]any{"ev": "Reset", "cfg": c})
+				// the next client connects to the same running server
+				put(map[string]any{"ev": "Conn"})
 				events++
 			}
 			run := srv.newRun(zzvEnc{users: users, rng: rng})
 			run.chunk = rng.Intn(2) == 0
 			var allEx []string
+			closed := false
 			for n := 0; n < 5; n++ {
 				var tok zzvS5Tok
 				if rng.Intn(10) == 0 {
@@ -1124,9 +1315,24 @@ func TestZZVSocks5AuthTrace(t *testing.T) {
 					}
 					return zzvEnc{users: users}.encode(tok)
 				}()
+				closed = obs.Closed
 				if obs.Closed || !complete {
 					break
 				}
+			}
+			if !closed {
+				// end the connection visibly (the spec starts the next connection from a closed one)
+				obs, err := run.step(zzvS5Tok{T: "EOF"})
+				if err != nil {
+					t.Fatalf("trace %d: %v", tr, err)
+				}
+				allEx = append(allEx, obs.Ex...)
+				rep := obs.Rep
+				if rep == nil {
+					rep = []string{}
+				}
+				put(map[string]any{"ev": "Tok", "tok": zzvTokJSON(zzvS5Tok{T: "EOF"}), "rep": rep, "ex": zzvExNames(obs.Ex), "closed": obs.Closed})
+				events++
 			}
 			run.finish()
 			allEx = append(allEx, srv.rec.drain()...)
